@@ -45,11 +45,16 @@ class PathBudget(BaseException):
     pass
 
 
+class PrunedPath(BaseException):
+    """the decision just flipped by the explorer is refuted by the solver: the whole subtree is infeasible"""
+
+
 # --------------------------------------------------------------------------- context
 
 class Ctx:
     """one execution of the code under test along one decision prefix"""
     cur = None
+    prune_check = None      # set by the runner: fn(ctx) -> True when assumptions /\ path is refuted quickly
 
     def __init__(self, decisions=(), concolic=False, values=False):
         self.assumptions = []      # z3 bools: input family + definitional axioms (true facts)
@@ -69,6 +74,7 @@ class Ctx:
         self.concolic = concolic
         self.values = values       # A2 layer: constrain angle values
         self.max_decisions = 200
+        self.prune_at = None
         self.recips = []           # (z3 var rho, z3 expr b): rho*b == 1 asserted, b != 0 on the path
         self.rules = []            # (z3 var v, z3 rhs): v*v == rhs is asserted; used as rewrite rule (poly.py)
         self.mods = 0
@@ -110,12 +116,15 @@ class Ctx:
                 raise PathBudget('too many decisions on one path')
             d = True
             self.decisions.append(True)
+        at_flip = (self.prune_at is not None and self.pos == self.prune_at)
         self.pos += 1
         neg = z3.simplify(z3.Not(cond))
         # the ASTs are stored with the decision: a live reference keeps z3 from reusing the id
         self.known[k] = (d, cond)
         self.known[neg.get_id()] = (not d, neg)
         self.path.append(cond if d else neg)
+        if at_flip and Ctx.prune_check is not None and Ctx.prune_check(self):
+            raise PrunedPath()
         return d
 
     def _fold_by_normal_form(self, cond):
@@ -543,7 +552,7 @@ def _sqrt(x):
     # radicands that normalise to a perfect square need no domain fork and no fresh variable
     res = _sqrt_resolve(c, x, use_solver=False)
     if res is None:
-        if not _is_sos(xs) and (x < 0):
+        if not (_is_sos(x.e) or _is_sos(xs)) and (x < 0):
             raise ValueError('math domain error')
         res = _sqrt_resolve(c, x, use_solver=True)
     if res is None:
